@@ -433,3 +433,87 @@ Definition realises (c : caps) (a : list (dim * bool)) : bool :=
 (* every assignment of the dimensions the needs read is realised by one of the targets *)
 Definition dims_covered (t : list need_row) (targets : list caps) : bool :=
   forallb (fun a => existsb (fun c => realises c a) targets) (assignments (table_dims t)).
+
+(* ---------------------------------------------------------------------------------------------- *)
+(* The configuration pipeline: how the capabilities of the user's configuration reach evaluation   *)
+(*   pkg/linter/linter.go   GetConfig, userConfigWithCustomRules, createDataBundle                 *)
+(*   pkg/config/bundle.go   LoadConfigWithDefaultsFromBundle                                       *)
+(*   bundle/regal/config/config.rego   merged_config := data.internal.combined_config,            *)
+(*                                     capabilities := object.union(merged_config.capabilities, _) *)
+(* Everything but the capabilities is abstract: R = the rules section, O = every other section     *)
+(* (defaults, ignore, project, features, capabilities URL), X = the linter options that do not go  *)
+(* through the configuration at all (disable/enable lists and flags -> data.eval.params, path      *)
+(* prefix -> data.internal.path_prefix, where the input comes from, debug mode, ...).              *)
+Section ConfigPipeline.
+  Variable R O X : Type.
+  (* regal's own capabilities (config.CapabilitiesForThisVersion) and the provided configuration *)
+  Variable this_version : caps.
+  Variable provided_rules : R.
+  Variable provided_other : O.
+  (* mergo.Merge + restoreProvidedRuleOptions + extractUserRuleLevels on the sections this property does not read *)
+  Variable merge_rules : R -> R -> R.
+  Variable merge_other : O -> O -> O.
+  (* userConfigWithCustomRules: an entry for every custom rule that has none *)
+  Variable add_custom_rules : R -> list rule_id -> R.
+
+  (* config.Config as the user provides it; Capabilities is a pointer: None = nil (a file loaded with
+     Config.UnmarshalYAML always has one, a Config built in Go may not) *)
+  Record uconfig := mkUC { uc_rules : R; uc_other : O; uc_caps : option caps }.
+
+  Record lopts := mkOpts {
+    lo_user : option uconfig;       (* WithUserConfig; None = never called                           *)
+    lo_custom : list rule_id;       (* the custom rule modules loaded (WithCustomRules[FromFS])      *)
+    lo_rest : X }.
+
+  (* conf := *l.userConfig; conf.Rules = copy + custom rules.  Unchanged without user config or custom rules *)
+  Definition user_config_with_custom_rules (o : lopts) : option uconfig :=
+    match lo_user o with
+    | None => None
+    | Some u =>
+        match lo_custom o with
+        | [] => Some u
+        | cs => Some (mkUC (add_custom_rules (uc_rules u) cs) (uc_other u) (uc_caps u))
+        end
+    end.
+
+  (* the variant of seed C19-4: a struct literal naming Rules, Defaults, Ignore, Project, Features *)
+  Definition user_config_with_custom_rules_by_field (o : lopts) : option uconfig :=
+    match lo_user o with
+    | None => None
+    | Some u =>
+        match lo_custom o with
+        | [] => Some u
+        | cs => Some (mkUC (add_custom_rules (uc_rules u) cs) (uc_other u) None)
+        end
+    end.
+
+  Record mconfig := mkMC { mc_rules : R; mc_other : O; mc_caps : caps }.
+
+  (* LoadConfigWithDefaultsFromBundle: the provided configuration has no capabilities of its own *)
+  Definition load_with_defaults (u : option uconfig) : mconfig :=
+    match u with
+    | None => mkMC provided_rules provided_other this_version
+    | Some u =>
+        mkMC (merge_rules provided_rules (uc_rules u)) (merge_other provided_other (uc_other u))
+             (match uc_caps u with Some c => c | None => this_version end)
+    end.
+
+  Definition get_config_with (wcr : lopts -> option uconfig) (o : lopts) : mconfig := load_with_defaults (wcr o).
+  Definition get_config := get_config_with user_config_with_custom_rules.
+
+  (* createDataBundle: what evaluation is handed *)
+  Record eval_data := mkED { ed_combined_config : mconfig; ed_elsewhere : X }.
+  Definition data_bundle_with (wcr : lopts -> option uconfig) (o : lopts) : eval_data :=
+    mkED (get_config_with wcr o) (lo_rest o).
+  Definition data_bundle := data_bundle_with user_config_with_custom_rules.
+
+  (* config.capabilities on the Rego side, without the "special" key computed from the input *)
+  Definition rego_capabilities (d : eval_data) : caps := mc_caps (ed_combined_config d).
+
+  (* the target the user configured *)
+  Definition configured_target (u : option uconfig) : caps :=
+    match u with
+    | Some u' => match uc_caps u' with Some c => c | None => this_version end
+    | None => this_version
+    end.
+End ConfigPipeline.
